@@ -180,7 +180,8 @@ impl SmartCalc {
             !is_small_date
         });
         
-        current_rules.push(RuleType::Internal {
+        /* Dates are found before any other rule looks at their numbers or at what follows them ('5 march 2020 at 11:30 as unix') */
+        current_rules.insert(0, RuleType::Internal {
             function_name: "small_date".to_string(),
             function: small_date as ExpressionFunc,
             tokens_list: function_items
